@@ -106,6 +106,28 @@ Theorem C13_frames_total_bounded :
     post (receive_complete_message encrypted open_ k c).
 Proof. exact frames_total_bounded. Qed.
 Print Assumptions C13_frames_total_bounded.
+(* Reassembly terminates because it consumes its input: the model's loops are run with
+   |connection| + 1 steps of fuel, and ANY larger fuel gives the same result, so the
+   fuel-exhausted branch is unreachable and the model is the (fuel-free) Go loop. *)
+Theorem C13_reassembly_fuel_sufficient :
+  forall (encrypted : bool) (open_ : N -> bytes -> bytes -> option bytes),
+    (forall k h b p, open_ k h b = Some p -> lenN p <= lenN b) ->
+    forall (k : N) (c : conn) (m : nat),
+      read_next_loop encrypted open_ (frames_fuel c + m) k c [] = read_next_frame encrypted open_ k c /\
+      recv_complete_loop encrypted open_ (frames_fuel c + m) k c [] = receive_complete_message encrypted open_ k c.
+Proof. exact reassembly_fuel_sufficient. Qed.
+Print Assumptions C13_reassembly_fuel_sufficient.
+(* The byte-at-a-time cleartext string loops (GetString, GetStringWithMaxSize, SkipString)
+   are run with more than [avail r] steps of fuel (the definitions use avail r + 2); with
+   that much fuel any additional fuel gives the same result: every iteration that
+   continues has consumed one byte, so the fuel-exhausted branch is unreachable. *)
+Theorem C13_string_fuel_sufficient :
+  forall (r : reader) (fuel m : nat), (N.to_nat (avail r) < fuel)%nat ->
+    (forall acc left, get_cstr_max_loop (fuel + m) r acc left = get_cstr_max_loop fuel r acc left) /\
+    skip_cstr_loop (fuel + m) r = skip_cstr_loop fuel r /\
+    (forall acc, get_cstr_loop (fuel + m) r acc = get_cstr_loop fuel r acc).
+Proof. exact string_fuel_sufficient. Qed.
+Print Assumptions C13_string_fuel_sufficient.
 (* the hypothesis is satisfiable by a decryption that accepts everything *)
 Example C13_frames_hypothesis_satisfiable :
   exists open_ : N -> bytes -> bytes -> option bytes,
